@@ -211,7 +211,11 @@ Definition ps0 : ps := mkps ub0 false false PRecv None [].
 (* GPub m ord: the range over the subscribers map visits them in an unspecified order;
    ord chooses it (subscribers listed in ord first, in that order, the rest ascending) *)
 Inductive fop3 := GSub (s : Z) | GUnsub (s : Z) | GPub (m : Z) (ord : list Z)
-                | GCancel | GAfter | GRun.
+                | GCancel | GAfter | GRun
+                (* test instrumentation: a callback (-1, 0) scheduled directly on the PubSub's
+                   serializer that blocks until GRelease, so that the queue behind it lags *)
+                | GBlock | GRelease.
+Definition blocker : Z := -1.
 
 Definition pub_order (subs ord : list Z) : list Z :=
   let a := filter (fun s => memz s subs) (nodup Z.eq_dec ord) in
@@ -235,10 +239,18 @@ Definition step3 (p : ps) (o : fop3) : ps * list ev :=
     match ppc p with
     | PDone => (p, [])
     | PRun (s, m) =>   (* the callback: lock; if !subscribers[s] return; s.OnMessage(m) *)
+      if s =? blocker then (p, []) else
       (mkps (pq p) (pcan p) (pfired p) PRecv (pmsg p) (psubs p),
        if memz s (psubs p) then [EDeliver s m] else [])
     | pc => let '(q', pc', dn) := run_step (pq p) pc in
             (mkps q' (pcan p) (pfired p) pc' (pmsg p) (psubs p), if dn then [EDone] else [])
+    end
+  | GBlock => (mkps (try_sched (pq p) (blocker, 0)) (pcan p) (pfired p) (ppc p) (pmsg p) (psubs p), [])
+  | GRelease =>
+    match ppc p with
+    | PRun (s, m) => if s =? blocker
+                     then (mkps (pq p) (pcan p) (pfired p) PRecv (pmsg p) (psubs p), []) else (p, [])
+    | _ => (p, [])
     end
   end.
 
@@ -250,7 +262,8 @@ Fixpoint steps3 (p : ps) (l : list fop3) : ps * list ev :=
 
 (* driver ops, each followed by synctest.Wait() (everything queued is delivered):
    [1;s] Subscribe (ignored when s is subscribed)  [2;m] Publish  [6;s] cancel s's subscription
-   [3] cancel ctx  [4] AfterFunc goroutine runs  [5] = [3];[4] *)
+   [3] cancel ctx  [4] AfterFunc goroutine runs  [5] = [3];[4]
+   [7] schedule a blocking callback on the PubSub's serializer  [8] let it return *)
 Definition base3 (p : ps) (op : word) : option (list fop3) :=
   match op with
   | [1; s] => Some (if memz s (psubs p) then [] else [GSub s])
@@ -259,10 +272,28 @@ Definition base3 (p : ps) (op : word) : option (list fop3) :=
   | [3] => Some [GCancel]
   | [4] => Some [GAfter]
   | [5] => Some [GCancel; GAfter]
+  | [7] => Some [GBlock]
+  | [8] => Some [GRelease]
   | _ => None
   end.
 Definition settle3 (p : ps) : list fop3 :=
   repeat GRun (3 * (length (pending (pq p)) + 2)).
+
+(* Publish ranges over a map, so the driver reports the deliveries of one op stably sorted by
+   subscriber (Done last); the model does the same *)
+Definition le3 (e x : ev) : bool :=
+  match e, x with
+  | EDeliver s _, EDeliver s' _ => s <=? s'
+  | EDeliver _ _, _ => true
+  | _, EDeliver _ _ => false
+  | _, _ => true
+  end.
+Fixpoint ins3 (e : ev) (l : list ev) : list ev :=
+  match l with
+  | [] => [e]
+  | x :: r => if le3 e x then e :: l else x :: ins3 e r
+  end.
+Definition sort3 (l : list ev) : list ev := fold_right ins3 [] l.
 
 Fixpoint exec3 (p : ps) (ops : list word) : option (list word * ps) :=
   match ops with
@@ -272,7 +303,7 @@ Fixpoint exec3 (p : ps) (ops : list word) : option (list word * ps) :=
                | Some l => let (p1, e1) := steps3 p l in
                            let (p2, e2) := steps3 p1 (settle3 p1) in
                            match exec3 p2 r with
-                           | Some (os, pf) => Some (enc_evs (e1 ++ e2) :: os, pf)
+                           | Some (os, pf) => Some (enc_evs (sort3 (e1 ++ e2)) :: os, pf)
                            | None => None
                            end
                end
@@ -302,7 +333,9 @@ Definition run (cfg : word) (ops : list word) : option (list word) :=
     8 pubsub: no delivery to a subscriber that is not subscribed
     9 pubsub: Done only after shutdown and after everything owed to subscribers was delivered
    10 FINDING serializer: Schedule after the context was cancelled but before the AfterFunc
-      goroutine closed the buffer is accepted (ScheduleOr's contract says onFailure) *)
+      goroutine closed the buffer is accepted (ScheduleOr's contract says onFailure)
+   11 FINDING pubsub: a Subscriber object that was unsubscribed and subscribed again receives a
+      value that was queued for its earlier subscription *)
 Definition cl := (Z * Z * bool)%type.
 
 (* kind 1 *)
@@ -395,8 +428,9 @@ Fixpoint clauses2 (m : mon2) (ops obs : list word) : list cl :=
 
 (* kind 3: owed = what is queued for currently subscribed subscribers, in queue order *)
 Record mon3 := mkm3 { m3owed : list (Z * Z); m3subs : list Z; m3msg : option Z;
-                      m3can : bool; m3fired : bool; m3done : bool }.
-Definition mon3_0 := mkm3 [] [] None false false false.
+                      m3can : bool; m3fired : bool; m3done : bool;
+                      m3stale : list (Z * Z) (* queued for a subscription that was cancelled *) }.
+Definition mon3_0 := mkm3 [] [] None false false false [].
 (* remove the first entry for subscriber s; returns its value *)
 Fixpoint take_first (s : Z) (l : list (Z * Z)) : option (Z * list (Z * Z)) :=
   match l with
@@ -412,12 +446,26 @@ Definition mon3_ev (m : mon3) (e : ev) : mon3 * list cl :=
   | EDeliver s v =>
     if negb (memz s (m3subs m)) then (m, [(8, s, false)]) else
     match take_first s (m3owed m) with
-    | Some (v', r) => (mkm3 r (m3subs m) (m3msg m) (m3can m) (m3fired m) (m3done m),
-                       [(7, s, (v =? v') && negb (m3done m))])
-    | None => (m, [(7, s, false)])
+    | Some (v', r) =>
+      if v =? v' then
+        (mkm3 r (m3subs m) (m3msg m) (m3can m) (m3fired m) (m3done m) (m3stale m), [(7, s, negb (m3done m))])
+      else
+        match take_first s (m3stale m) with
+        | Some (v'', r') =>
+          if v =? v'' then (mkm3 (m3owed m) (m3subs m) (m3msg m) (m3can m) (m3fired m) (m3done m) r', [(11, s, false)])
+          else (m, [(7, s, false)])
+        | None => (m, [(7, s, false)])
+        end
+    | None =>
+      match take_first s (m3stale m) with
+      | Some (v'', r') =>
+        if v =? v'' then (mkm3 (m3owed m) (m3subs m) (m3msg m) (m3can m) (m3fired m) (m3done m) r', [(11, s, false)])
+        else (m, [(7, s, false)])
+      | None => (m, [(7, s, false)])
+      end
     end
   | EDone =>
-    (mkm3 (m3owed m) (m3subs m) (m3msg m) (m3can m) (m3fired m) true,
+    (mkm3 (m3owed m) (m3subs m) (m3msg m) (m3can m) (m3fired m) true (m3stale m),
      [(9, 0, m3fired m && negb (m3done m) && match m3owed m with [] => true | _ => false end)])
   | _ => (m, [(0, 0, false)])
   end.
@@ -433,16 +481,18 @@ Definition mon3_op (m : mon3) (op : word) : mon3 * list cl :=
     (mkm3 (m3owed m ++ match m3msg m with
                        | Some v => if m3fired m then [] else [(s, v)]
                        | None => [] end)
-          (insz s (m3subs m)) (m3msg m) (m3can m) (m3fired m) (m3done m), [])
+          (insz s (m3subs m)) (m3msg m) (m3can m) (m3fired m) (m3done m) (m3stale m), [])
   | [2; v] =>
     (mkm3 (m3owed m ++ if m3fired m then [] else map (fun s => (s, v)) (m3subs m))
-          (m3subs m) (Some v) (m3can m) (m3fired m) (m3done m), [])
+          (m3subs m) (Some v) (m3can m) (m3fired m) (m3done m) (m3stale m), [])
   | [6; s] =>
     (mkm3 (filter (fun sm => negb (s =? fst sm)) (m3owed m)) (remz s (m3subs m)) (m3msg m)
-          (m3can m) (m3fired m) (m3done m), [])
-  | [3] => (mkm3 (m3owed m) (m3subs m) (m3msg m) true (m3fired m) (m3done m), [])
-  | [4] => (mkm3 (m3owed m) (m3subs m) (m3msg m) (m3can m) (m3can m || m3fired m) (m3done m), [])
-  | [5] => (mkm3 (m3owed m) (m3subs m) (m3msg m) true true (m3done m), [])
+          (m3can m) (m3fired m) (m3done m)
+          (m3stale m ++ filter (fun sm => s =? fst sm) (m3owed m)), [])
+  | [3] => (mkm3 (m3owed m) (m3subs m) (m3msg m) true (m3fired m) (m3done m) (m3stale m), [])
+  | [4] => (mkm3 (m3owed m) (m3subs m) (m3msg m) (m3can m) (m3can m || m3fired m) (m3done m) (m3stale m), [])
+  | [5] => (mkm3 (m3owed m) (m3subs m) (m3msg m) true true (m3done m) (m3stale m), [])
+  | [7] | [8] => (m, [])
   | _ => (m, [(0, 0, false)])
   end.
 Definition clause3 (m : mon3) (op obs : word) : mon3 * list cl :=
@@ -490,8 +540,8 @@ Fixpoint wf2 (can fired : bool) (ops : list word) : bool :=
 Fixpoint wf3 (ever : list Z) (ops : list word) : bool :=
   match ops with
   | [] => true
-  | [1; s] :: r => negb (memz s ever) && wf3 (s :: ever) r
-  | [2; _] :: r | [6; _] :: r | [3] :: r | [4] :: r | [5] :: r => wf3 ever r
+  | [1; s] :: r => (0 <=? s) && negb (memz s ever) && wf3 (s :: ever) r
+  | [2; _] :: r | [6; _] :: r | [3] :: r | [4] :: r | [5] :: r | [7] :: r | [8] :: r => wf3 ever r
   | _ => false
   end.
 Definition wf (cfg : word) (ops : list word) : bool :=
